@@ -75,7 +75,15 @@ fn rand_vec<F: UniformRand + Zero>(rng: &mut Rng, n: usize, zeros: bool) -> Vec<
 fn fft_op<D: EvaluationDomain<F>, F: ark_ff::FftField>(rng: &mut Rng, shape: usize) -> Vec<u8> {
     // shape encodes (log size, input-length class)
     let (logn, cls) = (shape / 8, shape % 8);
-    let n = 1usize << logn;
+    fft_op_n::<D, F>(rng, 1usize << logn, cls)
+}
+
+/// shape encodes (requested size, input-length class): sizes with odd factors for the mixed-radix kinds
+fn fft_op_sized<D: EvaluationDomain<F>, F: ark_ff::FftField>(rng: &mut Rng, shape: usize) -> Vec<u8> {
+    fft_op_n::<D, F>(rng, shape / 8, shape % 8)
+}
+
+fn fft_op_n<D: EvaluationDomain<F>, F: ark_ff::FftField>(rng: &mut Rng, n: usize, cls: usize) -> Vec<u8> {
     let Some(d) = D::new(n) else { return vec![0xEE] };
     let n = d.size();
     let len = [n, n / 2, n / 4, (n / 4).saturating_sub(1), n / 4 + 1, n - 1, 1, 0][cls].min(n);
@@ -105,6 +113,14 @@ fn ops(quick: bool) -> Vec<Op> {
     let mixed_shapes: Vec<usize> = (1..=if quick { 10 } else { 12 }).flat_map(|k| [0usize, 2, 3, 4].into_iter().map(move |c| k * 8 + c)).collect();
     v.push(Op { name: "mixed-radix fft/ifft/coset (bn384 Fr)", shapes: mixed_shapes.clone(), run: Box::new(|r, s| fft_op::<MixedRadixEvaluationDomain<Fm>, Fm>(r, s)) });
     v.push(Op { name: "general domain fft/ifft/coset (bn384 Fr)", shapes: mixed_shapes, run: Box::new(|r, s| fft_op::<GeneralEvaluationDomain<Fm>, Fm>(r, s)) });
+    // sizes 2^a * 3^b with b >= 1 (the parallel coset split of a size with an odd factor), exact and rounded-up requests
+    let mut odd_sizes: Vec<usize> = vec![3, 6, 9, 12, 18, 24, 36, 48, 72, 96, 144, 192, 288, 384, 576, 1152, 2304, 4608, 65, 130, 1025, 2500];
+    if !quick {
+        odd_sizes.extend([9216, 18432, 36864, 4097, 20000]);
+    }
+    let odd_shapes: Vec<usize> = odd_sizes.iter().flat_map(|&n| [0usize, 2, 4, 5].into_iter().map(move |c| n * 8 + c)).collect();
+    v.push(Op { name: "mixed-radix fft/ifft/coset, sizes with a factor 3 (bn384 Fr)", shapes: odd_shapes.clone(), run: Box::new(|r, s| fft_op_sized::<MixedRadixEvaluationDomain<Fm>, Fm>(r, s)) });
+    v.push(Op { name: "general domain fft/ifft/coset, sizes with a factor 3 (bn384 Fr)", shapes: odd_shapes, run: Box::new(|r, s| fft_op_sized::<GeneralEvaluationDomain<Fm>, Fm>(r, s)) });
     v.push(Op {
         name: "distribute_powers_and_mul_by_const",
         shapes: {
